@@ -6,6 +6,7 @@ import (
 	"strings"
 
 	"golang.org/x/tools/go/ssa"
+	"sort"
 )
 
 func init() {
@@ -1042,60 +1043,87 @@ func rulesC06(p *Prog, r *Report) {
 		if fn.Pkg == nil || !strings.HasSuffix(fn.Pkg.Pkg.Path(), "x/liquidity/amm") || len(fn.Blocks) == 0 {
 			continue
 		}
+		type choice struct {
+			val  ssa.Value
+			cond *ssa.Call
+			quo  bool
+		}
+		classify := func(cond ssa.Value) (subj ssa.Value, call *ssa.Call, quo, ok bool) {
+			c, isC := cond.(*ssa.Call)
+			if !isC || calleeShortName(&c.Call) != "IsZero" || len(c.Call.Args) != 1 {
+				return nil, nil, false, false
+			}
+			subj = c.Call.Args[0]
+			if q, isQ := subj.(*ssa.Call); isQ && (calleeShortName(&q.Call) == "Quo" || calleeShortName(&q.Call) == "QuoTruncate") && len(q.Call.Args) == 2 {
+				return q.Call.Args[0], c, true, true
+			}
+			return subj, c, false, true
+		}
+		// one table of choices per merge point: the phi the branches feed, or the function's
+		// result when every branch returns its value
+		tables := map[string]map[ssa.Value][]choice{}
+		add := func(key string, subj ssa.Value, ch choice) {
+			if tables[key] == nil {
+				tables[key] = map[ssa.Value][]choice{}
+			}
+			tables[key][subj] = append(tables[key][subj], ch)
+		}
 		for _, b := range fn.Blocks {
 			for _, in := range b.Instrs {
 				ph, ok := in.(*ssa.Phi)
 				if !ok {
 					continue
 				}
-				type choice struct {
-					val  ssa.Value
-					cond *ssa.Call
-					quo  bool
-				}
-				groups := map[ssa.Value][]choice{}
 				for i, e := range ph.Edges {
-					pred := b.Preds[i]
-					for _, cond := range trueConditionsInto(pred) {
-						call, ok := cond.(*ssa.Call)
-						if !ok || calleeShortName(&call.Call) != "IsZero" || len(call.Call.Args) != 1 {
-							continue
+					for _, cond := range trueConditionsInto(b.Preds[i]) {
+						if subj, call, quo, ok := classify(cond); ok {
+							add("phi:"+idOf(ph), subj, choice{e, call, quo})
 						}
-						subj := call.Call.Args[0]
-						quo := false
-						if q, ok := subj.(*ssa.Call); ok && (calleeShortName(&q.Call) == "Quo" || calleeShortName(&q.Call) == "QuoTruncate") && len(q.Call.Args) == 2 {
-							subj = q.Call.Args[0]
-							quo = true
-						}
-						groups[subj] = append(groups[subj], choice{e, call, quo})
 					}
 				}
-				for subj, cs := range groups {
-					hasPlain, hasQuo := false, false
-					for _, c := range cs {
-						if c.quo {
-							hasQuo = true
-						} else {
-							hasPlain = true
+			}
+			// `case X.IsZero(): return v`
+			if len(b.Instrs) > 0 {
+				if rt, ok := b.Instrs[len(b.Instrs)-1].(*ssa.Return); ok && len(rt.Results) == 1 {
+					for _, cond := range trueConditionsInto(b) {
+						if subj, call, quo, ok := classify(cond); ok {
+							add("return", subj, choice{rt.Results[0], call, quo})
 						}
 					}
-					if !hasPlain || !hasQuo {
-						continue
-					}
-					r.Instance("R06.4")
-					r.FuncsSeen[fname(fn)] = true
-					construct := fmt.Sprintf("%s value chosen when %s is (effectively) zero", fname(fn), valueName(subj))
-					same := true
-					for _, c := range cs[1:] {
-						if c.val != cs[0].val {
-							same = false
-						}
-					}
-					if same {
-						r.OK("R06.4", construct, "the exact and the rounded test choose the same value", p.instrPos(cs[0].cond))
+				}
+			}
+		}
+		var keys []string
+		for k := range tables {
+			keys = append(keys, k)
+		}
+		sort.Strings(keys)
+		for _, k := range keys {
+			for subj, cs := range tables[k] {
+				hasPlain, hasQuo := false, false
+				for _, c := range cs {
+					if c.quo {
+						hasQuo = true
 					} else {
-						r.Fail("R06.4", construct, "the branch for 'the reserve is zero' and the branch for 'its ratio to the other reserve rounds to zero' choose different values: an almost-empty side is priced at the opposite end of the range from an empty one", p.instrPos(cs[len(cs)-1].cond), nil)
+						hasPlain = true
 					}
+				}
+				if !hasPlain || !hasQuo {
+					continue
+				}
+				r.Instance("R06.4")
+				r.FuncsSeen[fname(fn)] = true
+				construct := fmt.Sprintf("%s value chosen when %s is (effectively) zero", fname(fn), valueName(subj))
+				same := true
+				for _, c := range cs[1:] {
+					if c.val != cs[0].val {
+						same = false
+					}
+				}
+				if same {
+					r.OK("R06.4", construct, "the exact and the rounded test choose the same value", p.instrPos(cs[0].cond))
+				} else {
+					r.Fail("R06.4", construct, "the branch for 'the reserve is zero' and the branch for 'its ratio to the other reserve rounds to zero' choose different values: an almost-empty side is priced at the opposite end of the range from an empty one", p.instrPos(cs[len(cs)-1].cond), nil)
 				}
 			}
 		}
